@@ -1,6 +1,7 @@
 package main
 
 import (
+	"time"
 	"bytes"
 	"crypto"
 	"crypto/rsa"
@@ -106,6 +107,14 @@ func init() {
 		if err != nil {
 			return []string{"err-cert"}
 		}
+		// earlier verifications on the same parsed object (their results are not the subject here)
+		if len(a) > 2 && a[2] != "" {
+			for _, h := range strings.Split(a[2], ",") {
+				if pc, err := x509.ParseCertificate(unhx(h)); err == nil {
+					p.Verify(pc)
+				}
+			}
+		}
 		ok, err := p.Verify(cert)
 		if err != nil {
 			return []string{"err"}
@@ -134,6 +143,7 @@ type recSigner struct {
 	sig    []byte
 	fail   bool
 	calls  int
+	slow   bool // a signer with latency (a hardware token): returns just after the next full second has begun
 }
 
 func (r *recSigner) Public() crypto.PublicKey { return r.key.Public() }
@@ -141,6 +151,10 @@ func (r *recSigner) Sign(rnd io.Reader, digest []byte, opts crypto.SignerOpts) (
 	r.calls++
 	if r.fail {
 		return nil, errInjected
+	}
+	if r.slow {
+		now := time.Now()
+		time.Sleep(now.Truncate(time.Second).Add(time.Second + 20*time.Millisecond).Sub(now))
 	}
 	r.digest = append([]byte{}, digest...)
 	s, err := r.key.Sign(rnd, digest, opts)
@@ -207,6 +221,10 @@ func librarySeeds(rng *rand.Rand, n int) []p7Seed {
 			ser := new(big.Int).SetBytes(append([]byte{0xc0 | byte(i)}, randBytes(rng, 7)...))
 			cert = mintCert(key, pkix.Name{CommonName: fmt.Sprintf("lib signer %d", i), Organization: []string{"verif"}}, ser)
 		}
+		if i%4 == 2 {
+			// issued by a CA: the signer entry names the issuer, which is not the subject
+			cert = leafCert(key, fmt.Sprintf("lib leaf %d", i), int64(7000+i))
+		}
 		content := randBytes(rng, 1+rng.Intn(200))
 		switch i % 3 {
 		case 0: // detached, data
@@ -244,6 +262,9 @@ func opensslSeeds(c *Ctx, rng *rand.Rand, n int) ([]p7Seed, string) {
 		conf := confs[i%len(confs)]
 		key := rsaKey(2048, i%2)
 		cert := simpleCert(key, fmt.Sprintf("ossl signer %d", i), int64(500+i))
+		if i%2 == 1 {
+			cert = leafCert(key, fmt.Sprintf("ossl leaf %d", i), int64(500+i))
+		}
 		content := randBytes(rng, 1+rng.Intn(300))
 		b, err := opensslSign(c.Work, conf[0], key, cert, content, conf[1:]...)
 		if err != nil {
@@ -306,10 +327,21 @@ func otherCerts(s p7Seed, rng *rand.Rand) map[string]*x509.Certificate {
 	var subj pkix.Name
 	subj.FillFromRDNSequence(&pkix.RDNSequence{})
 	subj = s.cert.Subject
-	out["same-issuer-serial-other-key"] = mintCert(k2, subj, s.cert.SerialNumber)
+	if bytes.Equal(s.cert.RawIssuer, s.cert.RawSubject) {
+		out["same-issuer-serial-other-key"] = mintCert(k2, subj, s.cert.SerialNumber)
+	} else {
+		out["same-issuer-serial-other-key"] = mintLeaf(k2, s.cert.Issuer, subj, s.cert.SerialNumber)
+	}
 	if s.key != nil {
 		out["same-key-other-serial"] = mintCert(s.key, subj, new(big.Int).Add(s.cert.SerialNumber, big.NewInt(1)))
 		out["same-key-other-issuer"] = mintCert(s.key, pkix.Name{CommonName: "someone else"}, s.cert.SerialNumber)
+	}
+	if s.key != nil {
+		// same key and serial, and a SUBJECT equal to the signer certificate's issuer (the issuer is someone else)
+		var in pkix.Name
+		in.FillFromRDNSequence(&pkix.RDNSequence{})
+		in = s.cert.Issuer
+		out["same-key-subject-is-signers-issuer"] = mintLeaf(s.key, pkix.Name{CommonName: "another CA"}, in, s.cert.SerialNumber)
 	}
 	out["unrelated"] = simpleCert(k2, "unrelated", 999)
 	return out
@@ -401,7 +433,9 @@ func p7Mutants(s p7Seed, rng *rand.Rand, nflip int) [][2]interface{} {
 	if c := root.at(0); c != nil && c.tag == 0x06 {
 		sdPath = []int{1, 0}
 	}
+	edits := map[string]func(sd *dnode) bool{}
 	edit := func(class string, f func(sd *dnode) bool) {
+		edits[class] = f
 		r := root.clone()
 		sd := r.at(sdPath...)
 		if sd == nil || sd.children == nil {
@@ -409,6 +443,22 @@ func p7Mutants(s p7Seed, rng *rand.Rand, nflip int) [][2]interface{} {
 		}
 		if f(sd) {
 			add(class, r.encode())
+		}
+	}
+	// edits of fields no signature covers are free for an attacker: each is also
+	// combined with every edit of the content (see the end of this function)
+	compound := func(a, b string) {
+		fa, fb := edits[a], edits[b]
+		if fa == nil || fb == nil {
+			return
+		}
+		r := root.clone()
+		sd := r.at(sdPath...)
+		if sd == nil || sd.children == nil {
+			return
+		}
+		if fa(sd) && fb(sd) {
+			add(a+"+"+b, r.encode())
 		}
 	}
 	// SignedData children: version, digestAlgorithms, contentInfo, [0] certs?, signerInfos
@@ -532,6 +582,21 @@ func p7Mutants(s p7Seed, rng *rand.Rand, nflip int) [][2]interface{} {
 		}
 		return true
 	})
+	edit("replace-content-with-empty", func(sd *dnode) bool { // the value octets become empty
+		ci := sd.at(2)
+		if ci == nil || len(ci.children) < 2 || len(ci.children[1].children) == 0 {
+			return false
+		}
+		inner := ci.children[1].children[0]
+		if inner.children == nil && len(inner.val) == 0 {
+			return false
+		}
+		inner.children, inner.val = nil, []byte{}
+		if rng.Intn(2) == 0 {
+			inner.tag = 0x04
+		}
+		return true
+	})
 	edit("embed-other-content", func(sd *dnode) bool { // detached blob gets some content attached
 		ci := sd.at(2)
 		if ci == nil || len(ci.children) != 1 {
@@ -642,6 +707,40 @@ func p7Mutants(s p7Seed, rng *rand.Rand, nflip int) [][2]interface{} {
 		sis.children = append([]*dnode{bad}, sis.children...)
 		return true
 	})
+	// fields that no signature covers
+	otherAlg := func(alg *dnode) bool { // AlgorithmIdentifier: change the last arc of the OID
+		if alg == nil {
+			return false
+		}
+		o := alg.at(0)
+		if o == nil || o.tag != 0x06 || len(o.val) == 0 {
+			return false
+		}
+		o.val = append([]byte{}, o.val...)
+		o.val[len(o.val)-1]++
+		return true
+	}
+	edit("signer-digestalg-other", func(sd *dnode) bool {
+		sis := signerInfos(sd)
+		if sis == nil || len(sis.children) == 0 {
+			return false
+		}
+		return otherAlg(sis.children[0].at(2))
+	})
+	edit("signeddata-digestalgs-other", func(sd *dnode) bool { return otherAlg(sd.at(1, 0)) })
+	edit("signer-encalg-other", func(sd *dnode) bool {
+		sis := signerInfos(sd)
+		if sis == nil || len(sis.children) == 0 {
+			return false
+		}
+		si := sis.children[0]
+		for i, ch := range si.children {
+			if ch.tag == 0xa0 && i+1 < len(si.children) {
+				return otherAlg(si.children[i+1])
+			}
+		}
+		return false
+	})
 	edit("trailing-garbage-in-signeddata", func(sd *dnode) bool {
 		sd.children = append(sd.children, &dnode{tag: 0x04, val: randBytes(rng, 5)})
 		return true
@@ -658,6 +757,11 @@ func p7Mutants(s p7Seed, rng *rand.Rand, nflip int) [][2]interface{} {
 	})
 	add("truncated", s.blob[:rng.Intn(len(s.blob))])
 	add("appended", append(append([]byte{}, s.blob...), randBytes(rng, 1+rng.Intn(8))...))
+	for _, content := range []string{"replace-content", "replace-content-with-empty", "spc-digest-swap", "replace-messagedigest"} {
+		for _, free := range []string{"signer-digestalg-other", "signeddata-digestalgs-other", "signer-encalg-other", "drop-certificates"} {
+			compound(content, free)
+		}
+	}
 	return out
 }
 
